@@ -71,7 +71,12 @@ def predicate(draw, d):
         if body[-1] == 'last()':
             body = body[:-1] + ['last', '(', ')']
     elif k == 5:
-        body = ['position', '(', ')', 'mod', '2', '=', draw(st.sampled_from(['0', '1']))]
+        if draw(st.booleans()):
+            body = ['position', '(', ')', 'mod', '2', '=', draw(st.sampled_from(['0', '1']))]
+        else:
+            # boolean predicates over last() WITHOUT position(): the context size must come from the step, not from the caller
+            body = draw(st.sampled_from([['last', '(', ')', '=', '1'], ['last', '(', ')', '>', '2'], ['last', '(', ')', '!=', '1'], ['last', '(', ')', 'mod', '2', '=', '0'],
+                                         ['not', '(', 'last', '(', ')', '=', '2', ')'], ['last', '(', ')', '<', '3', 'and', '@i'], ['count', '(', '*', ')', '<', 'last', '(', ')']]))
     elif k <= 7 and d > 0:
         body = draw(boolean(d - 1))
     elif k == 8 and d > 0:
@@ -114,9 +119,36 @@ def step(draw, d, allow_ns_axis=False):
     return toks
 
 
+_NUMERIC_FNS = {'position', 'last', 'count', 'sum', 'number', 'floor', 'ceiling', 'round', 'string-length'}
+
+
+def numeric_valued(ast):
+    """can the expression evaluate to a NUMBER (then a predicate [e] means [position() = e])?  Variables n1/n2 are numbers; an
+    unknown shape counts as numeric (conservative for the callers, which avoid such predicates where positions are unspecified)"""
+    k = ast[0]
+    if k == 'num' or k == 'neg':
+        return True
+    if k == 'bin':
+        return ast[1] in ('+', '-', '*', 'div', 'mod')
+    if k == 'fn':
+        return ast[1] is not None or ast[2] in _NUMERIC_FNS      # extension functions: unknown
+    if k == 'var':
+        return ast[2] in ('n1', 'n2')
+    if k in ('lit', 'path', 'union', 'filter'):
+        return False
+    return k not in ('path', 'union', 'lit')
+
+
 def _positional(p):
+    """does the predicate (token list incl. the brackets) depend on the context position / size?"""
     s = ' '.join(p)
-    return 'position' in s or 'last' in s or (len(p) == 3 and p[1][0].isdigit()) or 'count' in s or not any(c in s for c in "=<>!'")
+    if 'position' in s or 'last' in s:
+        return True
+    from . import ref_xpath
+    try:
+        return numeric_valued(ref_xpath.parse(' '.join(p[1:-1])))
+    except Exception:
+        return True
 
 
 @st.composite
